@@ -5,110 +5,12 @@
   multi-byte rune.  `Printer.quoteString v` is such a spelling for every byte string `v`.
 -/
 import SoyVerif.Lemmas.LexPrintTok
-import SoyVerif.Lemmas.Lexer
 
 set_option linter.unusedSimpArgs false
 set_option linter.unusedVariables false
 
 namespace SoyVerif.Lemmas.LexPrint
 open SoyVerif SoyVerif.Model SoyVerif.Model.Lex SoyVerif.Model.PrintTokens
-
-/-- a lead byte ≥ 0x80 decodes to a rune ≥ 0x80 (RuneError included) whose continuation bytes
-    are all ≥ 0x80 -/
-theorem decode_hi (a : Array UInt8) (i : Nat) (h : 128 ≤ byteAt a i) :
-    128 ≤ (decodeRune a i).1 ∧ ∀ j, 1 ≤ j → j < (decodeRune a i).2 → 128 ≤ byteAt a (i + j) := by
-  have lo := acceptLo_spec (byteAt a i)
-  have hi := acceptHi_le (byteAt a i)
-  unfold decodeRune
-  simp only [runeError]
-  split
-  · omega
-  split
-  · exact ⟨by simp, fun j h1 h2 => by simp at h2; omega⟩
-  split
-  · split
-    · exact ⟨by simp, fun j h1 h2 => by simp at h2; omega⟩
-    split
-    · exact ⟨by simp, fun j h1 h2 => by simp at h2; omega⟩
-    · refine ⟨by simp only; omega, fun j h1 h2 => ?_⟩
-      simp only at h2
-      have : j = 1 := by omega
-      subst this; omega
-  split
-  · split
-    · exact ⟨by simp, fun j h1 h2 => by simp at h2; omega⟩
-    split
-    · exact ⟨by simp, fun j h1 h2 => by simp at h2; omega⟩
-    split
-    · exact ⟨by simp, fun j h1 h2 => by simp at h2; omega⟩
-    · refine ⟨?_, fun j h1 h2 => ?_⟩
-      · simp only
-        by_cases h224 : byteAt a i = 224
-        · have := lo.2.1 h224; omega
-        · omega
-      · simp only at h2
-        have : j = 1 ∨ j = 2 := by omega
-        rcases this with rfl | rfl <;> omega
-  split
-  · split
-    · exact ⟨by simp, fun j h1 h2 => by simp at h2; omega⟩
-    split
-    · exact ⟨by simp, fun j h1 h2 => by simp at h2; omega⟩
-    split
-    · exact ⟨by simp, fun j h1 h2 => by simp at h2; omega⟩
-    split
-    · exact ⟨by simp, fun j h1 h2 => by simp at h2; omega⟩
-    · refine ⟨?_, fun j h1 h2 => ?_⟩
-      · simp only
-        by_cases h240 : byteAt a i = 240
-        · have := lo.2.2 h240; omega
-        · omega
-      · simp only at h2
-        have : j = 1 ∨ j = 2 ∨ j = 3 := by omega
-        rcases this with rfl | rfl | rfl <;> omega
-  · exact ⟨by simp, fun j h1 h2 => by simp at h2; omega⟩
-
-theorem inpAt_getD {inp : Array UInt8} {p : Nat} {s : Bytes} (h : InpAt inp p s) (j : Nat) (hj : j < s.length) :
-    inp.getD (p + j) 0 = s.getD j 0 := by
-  obtain ⟨pre, rfl, rfl⟩ := h
-  simp [List.getD_eq_getElem?_getD, List.getElem?_append_right]
-
-/-- `next` at ANY byte: it consumes that byte and possibly continuation bytes (all ≥ 0x80); the rune
-    is the byte itself if ASCII, and ≥ 0x80 otherwise -/
-theorem next_any {inp : Array UInt8} {p : Nat} {b : UInt8} {s : Bytes} (h : InpAt inp p (b :: s)) (st w le its) :
-    ∃ (r : Int) (c s' : Bytes), s = c ++ s' ∧ (∀ x ∈ c, 128 ≤ x.toNat) ∧
-      (b.toNat < 128 → r = (b.toNat : Int) ∧ c = []) ∧ (128 ≤ b.toNat → 128 ≤ r) ∧
-      (L inp p st w le its).next = some (r, L inp (p + (c.length + 1)) st ((c.length + 1 : Nat) : Int) le its) := by
-  by_cases hb : b.toNat < 128
-  · exact ⟨b.toNat, [], s, rfl, by simp, fun _ => ⟨rfl, rfl⟩, fun h' => by omega, next_L h hb st w le its⟩
-  · have ⟨h1, h2⟩ := inpAt_get h
-    have hlen := inpAt_len h
-    have hba : byteAt inp p = b.toNat := by simp [byteAt, h2]
-    have hd := decode_hi inp p (by omega)
-    have hw := decodeRune_width inp p h1
-    generalize hdr : decodeRune inp p = d at hd hw
-    obtain ⟨r, k⟩ := d
-    simp only at hd hw
-    have hk : k - 1 ≤ s.length := by simp at hlen; omega
-    refine ⟨r, s.take (k - 1), s.drop (k - 1), (List.take_append_drop _ _).symm, ?_, fun h' => absurd h' hb,
-      fun _ => by omega, ?_⟩
-    · intro x hx
-      obtain ⟨j, hj, rfl⟩ := List.mem_iff_getElem.mp hx
-      simp only [List.length_take] at hj
-      have hj' : j < k - 1 := by omega
-      have := hd.2 (j + 1) (by omega) (by omega)
-      have hg := inpAt_getD h (j + 1) (by simp; omega)
-      simp only [byteAt] at this
-      rw [← Nat.add_assoc] at this
-      rw [Nat.add_assoc, hg] at this
-      simp only [List.getElem_take]
-      simpa [List.getD_eq_getElem?_getD, List.getElem?_eq_getElem (show j < s.length by omega)] using this
-    · have hkl : (s.take (k - 1)).length + 1 = k := by simp; omega
-      rw [hkl]
-      unfold Lexer.next L Lexer.len
-      simp only [Int.toNat_natCast, hdr]
-      rw [if_neg (by omega), if_neg (by omega)]
-      simp
 
 /-- the inside of a string literal quoted with `q`: a backslash always has a successor (which is
     skipped), and no unescaped `q` occurs -/
